@@ -1,7 +1,7 @@
 """C20 — Versions parse, print and order numerically (structural clauses)."""
 import re
 from ..core import BV, strip, walk, fmt_t
-from .. import lib, guards
+from .. import lib, guards, terms
 
 V = "version::Version"
 
@@ -208,7 +208,25 @@ def run(F, R):
         R.check("C20-R4", "layout", len(f) == 1 and lay == "[u32; 4]", "struct Version([u32; 4])", "Version is not a single [u32; 4] field: %s" % [c.types[x["t"]]["s"] for x in f])
         for tr in ("std::cmp::PartialEq", "std::cmp::Eq", "std::cmp::PartialOrd", "std::cmp::Ord"):
             im = [i for i in c.impls if i.get("trait") == tr and i["self"] == V]
-            R.check("C20-R4", "derived:" + tr, len(im) == 1 and im[0]["derived"], "derived", "%s for Version is not #[derive]d (hand-written or missing)" % tr)
+            okd = len(im) == 1 and im[0]["derived"]
+            how = "derived"
+            if len(im) == 1 and not okd:
+                # hand-written but delegating to the component array (whose own impls are the lexicographic ones)
+                meth = {"std::cmp::PartialEq": "eq", "std::cmp::PartialOrd": "partial_cmp", "std::cmp::Ord": "cmp"}.get(tr)
+                if meth is None:
+                    okd, how = not im[0].get("items"), "marker impl"
+                else:
+                    mb = [b for b in lib.bodies(c, item=meth, impl_self=V, impl_trait=tr)]
+                    others_ = [i_ for i_ in im[0].get("items", []) if i_.get("kind") == "AssocFn" and i_.get("name") != meth]
+                    if len(mb) == 1 and not others_:
+                        mv = BV.of(mb[0])
+                        from .. import flow as _flow
+                        r_ = terms.render(mv, mv.trace_local(0), _flow.World([c]), {1: "a", 2: "b"})
+                        accepted = {"eq": ("eq(a.0, b.0)", "Eq(a.0, b.0)"), "cmp": ("cmp(a.0, b.0)",), "partial_cmp": ("Some{cmp(a, b)}", "partial_cmp(a.0, b.0)", "Some{cmp(a.0, b.0)}")}[meth]
+                        okd, how = r_.replace("*", "").replace("&", "") in accepted, "hand-written, delegates to the [u32; 4] field: " + r_
+                    else:
+                        how = "hand-written with %d bodies / extra methods %s" % (len(mb), [i_.get("name") for i_ in others_])
+            R.check("C20-R4", "derived:" + tr, okd, how, "%s for Version is neither #[derive]d nor a plain delegation to the component array (%s)" % (tr, how))
     # ---------------------------------------------------------------- R5 zero fill
     R.rule("C20-R5", "From<[u32; N]> copies into the prefix of a zero-initialised [u32; 4]")
     fr = [b for b in lib.bodies(c, item="from", impl_self=V, impl_trait="std::convert::From")]
